@@ -34,21 +34,41 @@ except Exception:  # noqa: BLE001
 
 
 class _Pi(float):
-    """np.pi: a float for concrete code, the symbol `pi` when mixed with proxies"""
+    """k*pi: a float for concrete code, the term k*pi (pi a real constant symbol with bounds) when mixed with proxies"""
+
+    def __new__(cls, k=1.0):
+        o = float.__new__(cls, k * _np.pi)
+        o.k = k
+        return o
 
     def _sym(self):
-        return realfn.pi()
+        return realfn.pi() * self.k if self.k != 1 else realfn.pi()
+
+    @staticmethod
+    def _plain(o):
+        return isinstance(o, (int, float)) and not isinstance(o, (bool, _Pi))
 
     def __mul__(self, o):
-        return self._sym() * o if _sym(o) else float(self) * o
+        if _sym(o):
+            return self._sym() * o
+        if self._plain(o):
+            return _Pi(self.k * o)
+        return float(self) * o
 
     __rmul__ = __mul__
 
     def __truediv__(self, o):
-        return self._sym() / o if _sym(o) else float(self) / o
+        if _sym(o):
+            return self._sym() / o
+        if self._plain(o) and o != 0:
+            return _Pi(self.k / o)
+        return float(self) / o
 
     def __rtruediv__(self, o):
         return o / self._sym() if _sym(o) else o / float(self)
+
+    def __neg__(self):
+        return _Pi(-self.k)
 
     def __add__(self, o):
         return self._sym() + o if _sym(o) else float(self) + o
@@ -60,6 +80,12 @@ class _Pi(float):
 
     def __rsub__(self, o):
         return o - self._sym() if _sym(o) else o - float(self)
+
+    def __mod__(self, o):
+        return self._sym() % o if _sym(o) else float(self) % o
+
+    def __rmod__(self, o):
+        return o % self._sym() if _sym(o) else o % float(self)
 
     def __lt__(self, o):
         return self._sym() < o if _sym(o) else float(self) < o
@@ -76,7 +102,7 @@ class _Pi(float):
     __hash__ = float.__hash__
 
 
-pi = _Pi(_np.pi)
+pi = _Pi(1.0)
 
 
 def _sym(x):
